@@ -44,5 +44,5 @@ def check(run):
                       'bodies in between; sweeps and RPM-curve measurements between process start and regulation counted from hook '
                       'events by TLC; non-trivial = restarts on an existing database',
                       dict(evaluations=starts, distinct_nontrivial=restarts, starts=starts, restarts=restarts, cli_calls=cli),
-                      ['fan reset / fan init are emulated by their bodies (cmd/fan/reset.go, cmd/fan/init.go: delete both entries; init then runs '
-                       'RunInitializationSequence) instead of spawning the CLI'])
+                      ['`fan reset` is the real CLI command run in a child process (cmd.Execute); `fan init` is emulated by its body (cmd/fan/init.go: delete both '
+                       'entries, then RunInitializationSequence) because the real analysis takes real time'])
